@@ -98,7 +98,9 @@ impl RenderHtml for &str {
                 crate::hydration::failed_to_cast_text_node(node)
             });
 
-        if !FROM_SERVER {
+        // the server renders an empty string as a single space (so that a text
+        // node exists to be adopted): give the node the real, empty content
+        if !FROM_SERVER || self.is_empty() {
             Rndr::set_text(&node, self);
         }
         position.set(Position::NextChildAfterText);
